@@ -57,68 +57,98 @@ func ruleValidateRefs(c *Ctx) {
 	bad := []string{}
 	n := 0
 	structFirst := true
-	sim := c.P.Simulate(fn, SimConfig{MaxPaths: 1 << 18, MaxVisits: 2}, func(pr *PathResult) {
-		n++
-		// name sets: m[x.Name] = … followed by a membership test m[ref]
-		sets := map[string]string{}
-		for _, e := range pr.Events {
-			if e.Kind == "mapupdate" && e.Addr != nil && len(e.Args) == 1 {
-				sets[e.Addr.Key()] = strings.TrimPrefix(refPath(e.Args[0]), ".")
+	// first with loops followed twice; when a comparison only shows on a later visit of a loop header (a found
+	// flag assigned from the comparison and tested by the loop condition) once more with a third visit
+	var sim *Sim
+	deepOverflow := false
+	for _, visits := range []int{2, 3} {
+		if visits == 3 {
+			complete := true
+			for k := range want {
+				if !seenPairs[k] {
+					complete = false
+				}
+			}
+			if complete || sim.Overflow {
+				break
 			}
 		}
-		for _, l := range pr.Conds {
-			l.Atom.walk(func(x *Term) bool {
-				if x.Op == "lookup" && len(x.Args) == 2 {
-					if member, ok := sets[x.Args[0].Key()]; ok {
-						a := strings.TrimPrefix(refPath(x.Args[1]), ".")
-						for _, k := range []string{a + "|" + member, member + "|" + a} {
-							if _, ok := want[k]; ok {
-								seenPairs[k] = true
+		prev := sim
+		sim = c.P.Simulate(fn, SimConfig{MaxPaths: 1 << 18, MaxVisits: visits}, func(pr *PathResult) {
+			n++
+			// name sets: m[x.Name] = … followed by a membership test m[ref]
+			sets := map[string]string{}
+			for _, e := range pr.Events {
+				if e.Kind == "mapupdate" && e.Addr != nil && len(e.Args) == 1 {
+					sets[e.Addr.Key()] = strings.TrimPrefix(refPath(e.Args[0]), ".")
+				}
+			}
+			for _, l := range pr.Conds {
+				l.Atom.walk(func(x *Term) bool {
+					if x.Op == "lookup" && len(x.Args) == 2 {
+						if member, ok := sets[x.Args[0].Key()]; ok {
+							a := strings.TrimPrefix(refPath(x.Args[1]), ".")
+							for _, k := range []string{a + "|" + member, member + "|" + a} {
+								if _, ok := want[k]; ok {
+									seenPairs[k] = true
+								}
 							}
 						}
 					}
-				}
-				return true
-			})
-		}
-		for _, l := range pr.Conds {
-			if l.Atom.Op == "eq" {
-				a, b := strings.TrimPrefix(refPath(l.Atom.Args[0]), "."), strings.TrimPrefix(refPath(l.Atom.Args[1]), ".")
-				for _, k := range []string{a + "|" + b, b + "|" + a} {
-					if _, ok := want[k]; ok {
-						seenPairs[k] = true
-					}
-				}
+					return true
+				})
 			}
-		}
-		if len(pr.Results) == 1 {
-			r := pr.Results[0]
-			if r.Op == "init" && r.Args[0].Op == "global" {
-				parts := strings.Split(r.Args[0].Name, ".")
-				errsReturned[parts[len(parts)-1]] = true
-			}
-		}
-		// struct validation first
-		first := true
-		for _, e := range pr.Events {
-			if e.Kind == "call" && e.Callee != nil {
-				if strings.HasSuffix(e.Callee.String(), "validator/v10.Validate).Struct") {
-					if !first {
-						structFirst = false
-					}
-					if k, isNil := pr.Facts.Decide(eqTerm(e.Result, nilTerm(nil))); k && !isNil {
-						if len(pr.Results) != 1 || pr.Results[0].Key() != e.Result.Key() {
-							bad = append(bad, "a struct-validation error is not returned")
+			for _, l := range pr.Conds {
+				if l.Atom.Op == "eq" {
+					a, b := strings.TrimPrefix(refPath(l.Atom.Args[0]), "."), strings.TrimPrefix(refPath(l.Atom.Args[1]), ".")
+					for _, k := range []string{a + "|" + b, b + "|" + a} {
+						if _, ok := want[k]; ok {
+							seenPairs[k] = true
 						}
 					}
 				}
-				first = false
 			}
+			if len(pr.Results) == 1 {
+				r := pr.Results[0]
+				if r.Op == "init" && r.Args[0].Op == "global" {
+					parts := strings.Split(r.Args[0].Name, ".")
+					errsReturned[parts[len(parts)-1]] = true
+				}
+			}
+			// struct validation first
+			first := true
+			for _, e := range pr.Events {
+				if e.Kind == "call" && e.Callee != nil {
+					if strings.HasSuffix(e.Callee.String(), "validator/v10.Validate).Struct") {
+						if !first {
+							structFirst = false
+						}
+						if k, isNil := pr.Facts.Decide(eqTerm(e.Result, nilTerm(nil))); k && !isNil {
+							if len(pr.Results) != 1 || pr.Results[0].Key() != e.Result.Key() {
+								bad = append(bad, "a struct-validation error is not returned")
+							}
+						}
+					}
+					first = false
+				}
+			}
+		})
+		if visits == 3 && sim.Overflow {
+			sim = prev // the deeper run did not finish: what the first run established stands
+			deepOverflow = true
 		}
-	})
+	}
 	if sim.Overflow {
 		c.undecided("reference-checks", name, pos, "path enumeration overflow")
 		return
+	}
+	if deepOverflow {
+		for k := range want {
+			if !seenPairs[k] {
+				c.undecided("reference-checks", name, pos, "path enumeration overflow before the comparison for "+k+" was reached")
+				return
+			}
+		}
 	}
 	for k, e := range want {
 		if !seenPairs[k] {
